@@ -131,7 +131,9 @@ def gen_cases(ctx, n):
                     ok, why = False, 'inner argument %r not in [0, %r)' % (a, ps[d])
                 elif abs(xs[d] / ps[d]) < 1e12:
                     q = (xs[d] - a) / ps[d]
-                    if abs(q - round(q)) > 1e-6:
+                    # fmod is exact; the test itself rounds: (x - a) to within ulp(x), the quotient to within eps*|q|
+                    tol = 2.0 * math.ulp(xs[d]) / ps[d] + 8.0 * 2.220446049250313e-16 * abs(q) + 1e-9
+                    if abs(q - round(q)) > tol:
                         ok, why = False, 'inner argument %r not congruent to %r mod %r' % (a, xs[d], ps[d])
             else:
                 if inner[d] != xs[d] and not (math.isnan(inner[d]) and math.isnan(xs[d])):
